@@ -46,7 +46,8 @@ def parseOracle (s : String) : Option OTable :=
 def OTable.toOracle (t : OTable) : Oracle :=
   let r := t.reverse
   fun f k d =>
-  match r.find? (fun e => e.1 == (f, k, d)) with
+  -- a processor is addressed by its instance name: node `otherFlow.key` runs the processor `key`
+  match r.find? (fun e => e.1 == (f, bareKey k, d)) with
   | some e => e.2
   | none => {}
 
@@ -143,7 +144,7 @@ def fmtOut (o : Out) : String :=
 
 def fmtEvent : Event → String
   | .enter f d => "F:" ++ pctEnc f ++ ":" ++ d.str
-  | .exec f k d o => "P:" ++ pctEnc f ++ ":" ++ pctEnc k ++ ":" ++ d.str ++ ":" ++ fmtOut o
+  | .exec f k d o => "P:" ++ pctEnc f ++ ":" ++ pctEnc (bareKey k) ++ ":" ++ d.str ++ ":" ++ fmtOut o
 
 def fmtErr : Option ExecErr → String
   | none => "ok"
@@ -158,7 +159,7 @@ def joinOr (xs : List String) : String := if xs.isEmpty then "-" else ",".interc
     (on the request stream), in execution order. -/
 def earlyActs (t : List Event) : List String :=
   t.filterMap fun
-    | .exec f k .req o => if o.early && !o.err then some (pctEnc (f ++ "/" ++ k)) else none
+    | .exec f k .req o => if o.early && !o.err then some (pctEnc (f ++ "/" ++ bareKey k)) else none
     | _ => none
 
 /-- processors of system flows are the real QuotaProcessorInc/Dec: their executions are not observable -/
@@ -188,7 +189,7 @@ def runStep (s : RunSt) (line : String) : RunSt × String :=
     let order := parseOrder rest
     if !allNamed s.cfg order then ({ s with loaded := none }, "bad-op") else
     let single := s.cfg.flows.length == 1 && s.cfg.quotas.isEmpty
-    match s.cfg.base? with
+    match (if s.cfg.flows.any (·.rep.borrows) then none else s.cfg.base?) with
     | some c =>
       -- reference-free: the loader of `Model/C04.lean`
       match load c order with
@@ -266,7 +267,7 @@ def judgeStep (s : JudgeSt) (op out : String) : JudgeSt :=
         match events with
         | none => { s with bad := some ("unparsable-events:" ++ pctEnc out) }
         | some tr =>
-          let (sc, asym) := match s.cfg.base? with
+          let (sc, asym) := match (if s.cfg.flows.any (·.rep.borrows) then none else s.cfg.base?) with
             | some c => (specCfg c s.order, false)
             | none => (specCfgR s.cfg s.order, refDiverges s.cfg)
           match judgeTxn sc (userNames s.cfg) t.toOracle d tr err with
